@@ -74,12 +74,13 @@ struct Atoms {
 static bool same_bits(double a, double b) { return std::memcmp(&a, &b, sizeof a) == 0; }
 
 template <class Con>
-static void run_case(const Case &c, const Con &con, const std::function<double(double)> &f, std::string &out) {
+static void run_case(const Case &c, const Con &con, const std::function<double(double)> &f, std::string &out,
+                     const std::function<double(double)> &singdist = [](double) { return INFINITY; }) {
   PLApproxParams p;
   p.grDom = {c.lo, c.hi, -1e6, 1e6};      // y range as the converter passes it by default (+-cvt:plapprox:domain)
   p.ubErr = c.tol;
   p.is_x_int = c.isint != 0;
-  char b[512];
+  char b[1800];
   const char *kind = nullptr; std::string what;
   try {
     PLApproximate(con, p);
@@ -99,6 +100,98 @@ static void run_case(const Case &c, const Con &con, const std::function<double(d
   const auto &x = p.plPoints.x_;
   const auto &y = p.plPoints.y_;
   double lo = p.grDomOut.lbx, hi = p.grDomOut.ubx;
+  // ---- measured deviation (observation only; PLShape's clauses "err"/"perr" judge it) ----
+  // dev(t, v): |v - f(t)| in permille (floor) of the allowed deviation tol * max(1, |f(t)|),
+  // saturated; f is the same libm call the approximator uses.  Points where f itself is
+  // undefined (NaN) are counted, not measured.
+  const long SATPM = 999999;
+  long undef = 0, nsamples = 0;
+  // seglen: length of the segment the point lies on (diagnosis label only: the approximator drops
+  // breakpoints closer than 1e-4 to the previous one, known finding); 0 = a breakpoint itself
+  // sing: distance of the point to the nearest singular point of f (pole / vertical tangent), same purpose
+  struct Worst { long pm = -1; double t = 0, f = 0, v = 0, seglen = 0, sing = INFINITY; } worst, pworst;
+  double curseg = 0;
+  auto dev = [&](double t, double v, Worst &w) -> long {
+    double ft = f(t);
+    if (std::isnan(ft)) { ++undef; return 0; }
+    ++nsamples;
+    long pm;
+    if (std::isnan(v)) pm = SATPM;
+    else if (std::isinf(ft) || std::isinf(v)) pm = (ft == v) ? 0 : SATPM;
+    else {
+      double r = std::fabs(v - ft) / (c.tol * std::max(1.0, std::fabs(ft))) * 1000.0;
+      pm = r >= (double)SATPM ? SATPM : (long)std::floor(r);
+    }
+    if (pm > w.pm) { w.pm = pm; w.t = t; w.f = ft; w.v = v; w.seglen = curseg; w.sing = singdist(t); }
+    return pm;
+  };
+  bool contArg = !p.is_x_int || p.fUsePeriod;     // the remainder of a periodic argument is not integer
+  // em[i]: worst deviation at breakpoint i and inside the segment that ends there
+  std::vector<long> em(x.size(), 0);
+  for (size_t i = 0; i < x.size() && i < y.size(); ++i) {
+    curseg = 0;
+    long m = dev(x[i], y[i], worst);
+    if (i > 0 && x[i] > x[i - 1]) {
+      double x0 = x[i - 1], x1 = x[i], y0 = y[i - 1], y1 = y[i];
+      curseg = x1 - x0;
+      auto pl = [&](double t) { return y0 + (y1 - y0) * ((t - x0) / (x1 - x0)); };
+      if (contArg) {
+        for (int k = 1; k < 8; ++k) { double t = x0 + (x1 - x0) * k / 8.0; if (t > x0 && t < x1) m = std::max(m, dev(t, pl(t), worst)); }
+      } else {
+        double a = std::ceil(x0), b = std::floor(x1);
+        if (a == x0) a += 1;
+        if (b == x1) b -= 1;
+        double cnt = b - a + 1;
+        if (cnt >= 1) {
+          int K = cnt <= 9 ? (int)cnt : 9;
+          for (int k = 0; k < K; ++k) {
+            double t = K == 1 ? a : std::floor(a + (b - a) * k / (K - 1));
+            m = std::max(m, dev(t, pl(t), worst));
+          }
+        }
+      }
+    }
+    em[i] = m;
+  }
+  // periodic: the argument interval seen through x = n*L + remainder
+  long pem = 0;
+  if (p.fUsePeriod && x.size() >= 2 && x.size() == y.size()) {
+    double L = p.periodLength, rl = p.periodRemainderRange.lb;
+    auto plper = [&](double t, bool &ok) {
+      double n = std::floor((t - rl) / L), r = t - n * L;
+      ok = n >= p.periodicFactorRange.lb && n <= p.periodicFactorRange.ub;   // else: clause "factor"
+      // a remainder outside the breakpoint hull: rounding (clamped), or a point the result does not cover
+      // (pole neighbourhoods of tan; the piece behind a dropped last breakpoint is clause "last")
+      double slackr = 1e-9 * L * (1 + std::fabs(n));
+      if (r < x.front() - slackr || r > x.back() + slackr) ok = false;
+      if (r < x.front()) r = x.front();
+      if (r > x.back()) r = x.back();
+      size_t j = std::upper_bound(x.begin(), x.end(), r) - x.begin();
+      if (j == 0) j = 1;
+      if (j >= x.size()) j = x.size() - 1;
+      curseg = x[j] - x[j - 1];
+      return y[j - 1] + (y[j] - y[j - 1]) * ((r - x[j - 1]) / (x[j] - x[j - 1]));
+    };
+    auto probe = [&](double t) {
+      if (p.is_x_int) t = std::round(t);
+      if (!(t >= lo && t <= hi)) return;
+      bool ok; double v = plper(t, ok);
+      if (ok) pem = std::max(pem, dev(t, v, pworst));
+    };
+    // measured on the part of the argument interval within +-1e6: beyond that t - n*L is not exact enough in doubles
+    double plo = std::max(lo, -1e6), phi = std::min(hi, 1e6);
+    if (L > 0 && std::isfinite(L) && plo <= phi) {
+      for (int k = 0; k <= 400; ++k) probe(plo + (phi - plo) * k / 400.0);
+      double n0 = std::ceil((plo - rl) / L), n1 = std::floor((phi - rl) / L);
+      double nb = n1 - n0 + 1;
+      for (int k = 0; k < 200 && k < nb; ++k) {        // period boundaries (all, or 200 spread over the range)
+        double n = nb <= 200 ? n0 + k : std::floor(n0 + (n1 - n0) * k / 199.0);
+        double bnd = n * L + rl;
+        probe(bnd); probe(std::nextafter(bnd, -INFINITY)); probe(std::nextafter(bnd, INFINITY));
+        probe(bnd - 1e-7 * L); probe(bnd + 1e-7 * L);
+      }
+    }
+  }
   Atoms A;
   A.add(lo); A.add(hi); A.add(std::ceil(lo)); A.add(std::floor(hi));
   if (p.fUsePeriod) { A.add(p.periodRemainderRange.lb); A.add(p.periodRemainderRange.ub); }
@@ -123,17 +216,19 @@ static void run_case(const Case &c, const Con &con, const std::function<double(d
              c.id, (L > 0 && std::isfinite(L)) ? "true" : "false", sat(nlo), sat(nhi), integral ? "true" : "false",
              sat(fLo), sat(cHi));
     out += b;
+    out += "\"pem\":" + std::to_string(pem) + ",";
     out += "\"remLo\":" + A.ar(rl) + ",\"remHi\":" + A.ar(ru) + "}\n";
   }
   const size_t CH = 1000;
   bool wantint = p.is_x_int && !p.fUsePeriod;
   for (size_t i0 = 0; i0 < x.size() || i0 == 0; i0 += CH) {
     size_t i1 = std::min(x.size(), i0 + CH);
-    std::string xa = "[", xr = "[", xv = "[", yx = "[";
+    std::string xa = "[", xr = "[", xv = "[", yx = "[", ems = "[";
     for (size_t i = i0; i < i1; ++i) {
       const char *sep = i == i0 ? "" : ",";
       xa += sep + std::to_string(A.atom(x[i]));
       xr += sep + std::to_string(A.rank(x[i]));
+      ems += sep + std::to_string(em[i]);
       if (wantint) {
         bool iv = is_intval(x[i]);
         xv += sep + std::to_string(iv ? (long)x[i] : NI);
@@ -142,7 +237,7 @@ static void run_case(const Case &c, const Con &con, const std::function<double(d
         yx += sep + std::string(ex ? "true" : "false");
       }
     }
-    out += "{\"e\":\"Pts\",\"id\":" + std::to_string(c.id) + ",\"xa\":" + xa + "],\"xr\":" + xr + "]";
+    out += "{\"e\":\"Pts\",\"id\":" + std::to_string(c.id) + ",\"xa\":" + xa + "],\"xr\":" + xr + "],\"em\":" + ems + "]";
     if (wantint) out += ",\"xv\":" + xv + "],\"yx\":" + yx + "]";
     out += "}\n";
     if (x.empty()) break;
@@ -155,9 +250,16 @@ static void run_case(const Case &c, const Con &con, const std::function<double(d
   bool lastNear = have && x.back() != thi && std::fabs(thi - x.back()) <= 1e-4;   // independent of the float diagnosis
   bool firstNear = have && x.front() != tlo && std::fabs(tlo - x.front()) <= 1e-4;
   bool mid = x.size() == 1 && tlo != thi && x[0] == (tlo + thi) / 2.0;
-  snprintf(b, sizeof b, "{\"e\":\"Done\",\"id\":%ld,\"n\":%zu,\"ny\":%zu,\"per\":%s,\"diag\":{\"mid\":%s,\"firstF32\":%s,"
+  char wb[700];
+  snprintf(wb, sizeof wb, "\"samples\":%ld,\"undef\":%ld,\"worst\":{\"pm\":%ld,\"t\":\"%.17g\",\"f\":\"%.17g\",\"pl\":\"%.17g\",\"seglen\":\"%.6g\",\"minstep\":%s,\"sing\":%s},"
+           "\"pworst\":{\"pm\":%ld,\"t\":\"%.17g\",\"f\":\"%.17g\",\"pl\":\"%.17g\",\"seglen\":\"%.6g\",\"minstep\":%s,\"sing\":%s},",
+           nsamples, undef, worst.pm, worst.t, worst.f, worst.v, worst.seglen, (worst.seglen > 0 && worst.seglen <= 2.5e-4) ? "true" : "false",
+           worst.sing <= 2e-3 ? "true" : "false",
+           pworst.pm, pworst.t, pworst.f, pworst.v, pworst.seglen, (pworst.seglen > 0 && pworst.seglen <= 2.5e-4) ? "true" : "false",
+           pworst.sing <= 2e-3 ? "true" : "false");
+  snprintf(b, sizeof b, "{\"e\":\"Done\",\"id\":%ld,\"n\":%zu,\"ny\":%zu,\"per\":%s,\"diag\":{%s\"mid\":%s,\"firstF32\":%s,"
            "\"lastF32\":%s,\"firstNear\":%s,\"lastNear\":%s,\"single\":%s}}\n", c.id, x.size(), y.size(),
-           p.fUsePeriod ? "true" : "false", mid ? "true" : "false", firstF32 ? "true" : "false", lastF32 ? "true" : "false",
+           p.fUsePeriod ? "true" : "false", wb, mid ? "true" : "false", firstF32 ? "true" : "false", lastF32 ? "true" : "false",
            firstNear ? "true" : "false", lastNear ? "true" : "false", x.size() == 1 ? "true" : "false");
   out += b;
 }
@@ -165,24 +267,30 @@ static void run_case(const Case &c, const Con &con, const std::function<double(d
 static void dispatch(const Case &c, std::string &out) {
   const double a = c.prm;
   const std::string &f = c.fn;
+  auto d0 = [](double x) { return std::fabs(x); };
+  auto d1 = [](double x) { return std::fabs(x - 1); };
+  auto dpm1 = [](double x) { return std::min(std::fabs(x - 1), std::fabs(x + 1)); };
+  auto dpole = [](double x) { double h = M_PI / 2, k = std::round((x - h) / M_PI); return std::fabs(x - (h + k * M_PI)); };
+  auto none = [](double) { return (double)INFINITY; };
+  bool powsing = a < 0 || std::floor(a) != a;
   if (f == "Exp") run_case(c, ExpConstraint({0}), [](double x) { return std::exp(x); }, out);
-  else if (f == "Log") run_case(c, LogConstraint({0}), [](double x) { return std::log(x); }, out);
+  else if (f == "Log") run_case(c, LogConstraint({0}), [](double x) { return std::log(x); }, out, d0);
   else if (f == "ExpA") run_case(c, ExpAConstraint({0}, DblParamArray1{a}), [a](double x) { return std::pow(a, x); }, out);
   else if (f == "LogA") { double la = std::log(a);
-    run_case(c, LogAConstraint({0}, DblParamArray1{a}), [la](double x) { return std::log(x) / la; }, out); }
-  else if (f == "Pow") run_case(c, PowConstraint({0}, DblParamArray1{a}), [a](double x) { return std::pow(x, a); }, out);
+    run_case(c, LogAConstraint({0}, DblParamArray1{a}), [la](double x) { return std::log(x) / la; }, out, d0); }
+  else if (f == "Pow") run_case(c, PowConstraint({0}, DblParamArray1{a}), [a](double x) { return std::pow(x, a); }, out, powsing ? std::function<double(double)>(d0) : std::function<double(double)>(none));
   else if (f == "Sin") run_case(c, SinConstraint({0}), [](double x) { return std::sin(x); }, out);
   else if (f == "Cos") run_case(c, CosConstraint({0}), [](double x) { return std::cos(x); }, out);
-  else if (f == "Tan") run_case(c, TanConstraint({0}), [](double x) { return std::tan(x); }, out);
-  else if (f == "Asin") run_case(c, AsinConstraint({0}), [](double x) { return std::asin(x); }, out);
-  else if (f == "Acos") run_case(c, AcosConstraint({0}), [](double x) { return std::acos(x); }, out);
+  else if (f == "Tan") run_case(c, TanConstraint({0}), [](double x) { return std::tan(x); }, out, dpole);
+  else if (f == "Asin") run_case(c, AsinConstraint({0}), [](double x) { return std::asin(x); }, out, dpm1);
+  else if (f == "Acos") run_case(c, AcosConstraint({0}), [](double x) { return std::acos(x); }, out, dpm1);
   else if (f == "Atan") run_case(c, AtanConstraint({0}), [](double x) { return std::atan(x); }, out);
   else if (f == "Sinh") run_case(c, SinhConstraint({0}), [](double x) { return std::sinh(x); }, out);
   else if (f == "Cosh") run_case(c, CoshConstraint({0}), [](double x) { return std::cosh(x); }, out);
   else if (f == "Tanh") run_case(c, TanhConstraint({0}), [](double x) { return std::tanh(x); }, out);
   else if (f == "Asinh") run_case(c, AsinhConstraint({0}), [](double x) { return std::asinh(x); }, out);
-  else if (f == "Acosh") run_case(c, AcoshConstraint({0}), [](double x) { return std::acosh(x); }, out);
-  else if (f == "Atanh") run_case(c, AtanhConstraint({0}), [](double x) { return std::atanh(x); }, out);
+  else if (f == "Acosh") run_case(c, AcoshConstraint({0}), [](double x) { return std::acosh(x); }, out, d1);
+  else if (f == "Atanh") run_case(c, AtanhConstraint({0}), [](double x) { return std::atanh(x); }, out, dpm1);
   else out += "{\"e\":\"Crash\",\"id\":" + std::to_string(c.id) + ",\"what\":\"unknown function type\"}\n";
 }
 
